@@ -11,7 +11,7 @@ from props.rundriver import RG
 PROPERTY = "C11"
 FUNCTIONS = ["wannierberri.run_grid.run (restart=True branch and normal branch)", "run_grid.read_factors / write_factors", "run_grid.get_Kpoint_storage_path",
              "KpointBZ.dump_result/get_dumped_result/set_factor", "K_list.pickle append/reload", "run_grid.process"]
-BOUNDS = dict(quick=dict(grid="NKdiv 2x2x1 / 2x1x1", total_iterations="n = 2 (3 in one case)", splits="every stopping point k < n, remaining iterations in one step or two",
+BOUNDS = dict(quick=dict(grid="NKdiv 2x2x1 / 2x1x1", total_iterations="n = 2 (3 in one case)", splits="every stopping point k < n, remaining iterations in one step or two; continuation from an earlier iteration than the last stored one (explicit restart_iteration)",
                          storage="allow_restart, dump_results", symmetry="none, C4z", listing="every order of the factor files (symbolic permutation)",
                          restart_iteration="-1 (latest) and explicit"),
               thorough=dict(grid="as quick + 2x2x2", total_iterations="n <= 3", splits="all", storage="both", symmetry="none, C4z, Inversion", listing="all orders",
@@ -124,6 +124,49 @@ def case_restart(rec, NKdiv, gens, n, splits, store, explicit_iter=False, adpt_m
     rec.explore(body, ass, maxpaths=20000)
 
 
+def case_restart_earlier(rec, NKdiv, gens, n, j, store, adpt_mesh=2):
+    """a run of n iterations is continued from the files of an EARLIER iteration j < n (explicit restart_iteration): the K-points created after j are already on disk,
+    so with symmetry the re-created children merge into evaluated points and an iteration may change weights without evaluating anything"""
+    D.setup_symbolic()
+    RG.np = RGnpL()
+    RG.int = lifted_int
+    reg = D.Registry(1)
+    ass = reg.assumptions(80)
+
+    def body(rec):
+        reg.reg.clear()
+        gs = GlobStub()
+        RG.glob = gs
+        rec.witness = lambda env: dict(test="earlier", NKdiv=NKdiv, gens=gens, n=n, j=j, store=store, adpt_mesh=adpt_mesh, values=D.registry_values(env, reg))
+        sysobj = D.Sys(gens)
+        obs = D.Observer(reg)
+        obs.install()
+        try:
+            with D.TmpDir() as tmp:
+                res = D.do_run(sysobj, D.make_calc(reg), NKdiv, n, tmp, adpt_mesh=adpt_mesh, **store)
+                ref = {it: got for it, got, exp, ws in obs.snaps}
+                obs.snaps.clear()
+                kw = dict(store)
+                kw.update(restart=True, restart_iteration=j)
+                res2 = D.do_run(sysobj, D.make_calc(reg), NKdiv, n - j, tmp, adpt_mesh=adpt_mesh, **kw)
+                later = {it: (got, exp, ws) for it, got, exp, ws in obs.snaps}
+                got_final = SymC.of(res2.results['c'].data[0])
+                exp_final = obs.expected()
+        finally:
+            obs.uninstall()
+        rec.concrete("the continued run saves the iterations after the restart point", sorted(later) == list(range(j + 1, n + 1)), detail=f"{sorted(later)}",
+                     key="restart from an earlier iteration: saved iterations differ")
+        for it in sorted(set(later) & set(ref)):
+            got, exp, ws = later[it]
+            rec.eq(f"iteration {it}: continued from iteration {j} == first run", got, ref[it], key=f"restart from an earlier iteration (storage={sorted(store)}): result differs from the uninterrupted run")
+            if exp is not None:
+                rec.eq(f"iteration {it}: saved result == sum_K factor_K r(K) over the current K list", got, exp, key="restart from an earlier iteration: saved result differs from the weighted sum over the K list")
+            rec.concrete(f"iteration {it}: weights sum to one", abs(ws - 1) < 1e-9, detail=str(ws), key="restart from an earlier iteration: weights do not sum to one")
+        rec.eq("returned result == sum_K factor_K r(K)", got_final, exp_final, key="restart from an earlier iteration: returned result differs from the weighted sum over the K list")
+        rec.eq("returned result == last iteration of the first run", got_final, ref[n], key=f"restart from an earlier iteration (storage={sorted(store)}): result differs from the uninterrupted run")
+    rec.explore(body, ass, maxpaths=20000)
+
+
 def cases(tier, seed):
     q = tier == "quick"
     out = []
@@ -135,6 +178,14 @@ def cases(tier, seed):
                     continue
                 out.append(Case(f"2x2x1 gens={gens} n=2 splits={splits} store={name}", case_restart,
                                 dict(NKdiv=(2, 2, 1), gens=gens, n=2, splits=splits, store=st), timeout=1200 if q else 3000))
+    for gens in (["C4z"], []):
+        for name, st in (("restart", A), ("dump", Dm)):
+            if q and not gens and name == "dump":
+                continue
+            out.append(Case(f"2x2x1 gens={gens} n=2 continued from the earlier iteration 1 store={name}", case_restart_earlier,
+                            dict(NKdiv=(2, 2, 1), gens=gens, n=2, j=1, store=st), timeout=1200 if q else 3000))
+    out.append(Case("2x2x1 gens=['C4z'] n=2 continued from the earlier iteration 0 store=restart", case_restart_earlier,
+                    dict(NKdiv=(2, 2, 1), gens=["C4z"], n=2, j=0, store=A), timeout=1200 if q else 3000))
     out.append(Case("2x1x1 noSym n=2 splits=[1,1] explicit restart_iteration", case_restart, dict(NKdiv=(2, 1, 1), gens=[], n=2, splits=[1, 1], store=A, explicit_iter=True), timeout=900))
     out.append(Case("2x1x1 noSym n=3 splits=[1,1,1] mesh=(2,1,1)", case_restart, dict(NKdiv=(2, 1, 1), gens=[], n=3, splits=[1, 1, 1], store=A, adpt_mesh=(2, 1, 1)), timeout=1200))
     if not q:
@@ -143,9 +194,46 @@ def cases(tier, seed):
     return out
 
 
+def replay_earlier(w):
+    reg = D.ConcreteRegistry(w["values"])
+    mesh = w["adpt_mesh"] if isinstance(w["adpt_mesh"], int) else tuple(w["adpt_mesh"])
+    sysobj = D.Sys(w["gens"])
+    obs = D.ConcreteObserver(reg)
+    obs.install()
+    try:
+        with D.TmpDir() as tmp:
+            res = D.do_run(sysobj, D.make_concrete_calc(reg), tuple(w["NKdiv"]), w["n"], tmp, adpt_mesh=mesh, **w["store"])
+            ref = {it: got for it, got, exp, ws in obs.snaps}
+            obs.snaps.clear()
+            kw = dict(w["store"])
+            kw.update(restart=True, restart_iteration=w["j"])
+            try:
+                res2 = D.do_run(sysobj, D.make_concrete_calc(reg), tuple(w["NKdiv"]), w["n"] - w["j"], tmp, adpt_mesh=mesh, **kw)
+            except Exception as e:
+                return True, f"continued run raises {type(e).__name__}: {e}"
+            later = {it: (got, exp, ws) for it, got, exp, ws in obs.snaps}
+            got_final = float(res2.results['c'].data[0])
+            exp_final = obs.expected()
+    finally:
+        obs.uninstall()
+    bad = sorted(later) != list(range(w["j"] + 1, w["n"] + 1))
+    msgs = []
+    for it, (got, exp, ws) in sorted(later.items()):
+        if it in ref and abs(got - ref[it]) > 1e-9 * max(1, abs(ref[it])):
+            bad = True
+        if exp is None or abs(got - exp) > 1e-9 * max(1, abs(exp)) or abs(ws - 1) > 1e-9:
+            bad = True
+        msgs.append(f"iter {it}: continued {got} first run {ref.get(it)} weighted sum {exp} sum_w {ws}")
+    if exp_final is None or abs(got_final - exp_final) > 1e-9 * max(1, abs(exp_final)) or abs(got_final - ref[w["n"]]) > 1e-9 * max(1, abs(ref[w["n"]])):
+        bad = True
+    return bool(bad), "; ".join(msgs) + f"; returned {got_final} weighted sum {exp_final} first run {ref[w['n']]}"
+
+
 def replay(rec):
     """real run() twice with real files; the directory listing order of the counterexample is injected through run_grid.glob"""
     w = rec["witness"]
+    if w.get("test") == "earlier":
+        return replay_earlier(w)
     reg = D.ConcreteRegistry(w["values"])
     mesh = w["adpt_mesh"] if isinstance(w["adpt_mesh"], int) else tuple(w["adpt_mesh"])
     sysobj = D.Sys(w["gens"])
